@@ -158,7 +158,10 @@ def leaf_values(item, rnd, size_hint):
                 out.append((t, [True, False], [True, False]))
         else:
             lo, hi = t._min, t._max
-            if t._base_type is float:
+            if t is V.F8:
+                # values a binary32 cannot hold: where F8 is an allowed alternative they must arrive unchanged (D44)
+                vals = [0.1, 16777217.0, -1e-50]
+            elif t._base_type is float:
                 vals = [0.0, 1.5, -2.25] if lo < 0 else [0.0, 1.5]
             else:
                 vals = [hi, lo, (lo + hi) // 2]
